@@ -437,9 +437,15 @@ def exec_seq(job):
 
 
 def exec_job(job):
-    if job['kind'] in ('simple', 'complex'):
-        return exec_seq(job)
-    return exec_comb(job)
+    """never let one design abort the whole run: an unexpected exception is reported for that design"""
+    try:
+        if job['kind'] in ('simple', 'complex'):
+            return exec_seq(job)
+        return exec_comb(job)
+    except Exception as e:  # noqa
+        import traceback
+        pyrtl.reset_working_block()
+        return {'fatal': '%s: %s | %s' % (type(e).__name__, str(e)[:200], traceback.format_exc()[-400:])}
 
 
 # --------------------------------------------------------------------------- Coq expressions
@@ -1193,12 +1199,20 @@ def run(ctx):
         for w in job['widths'][:3] if job['kind'] != 'reduce' else []:
             ctx.count('operand_widths', w if w <= 16 else ('17-62' if w < 63 else '63-65'))
         model = models[ji] if models is not None else None
+        if 'fatal' in res:
+            ctx.model_mismatch('the harness could not build/simulate a design: ' + res['fatal'],
+                               {'kind': job['kind'], 'widths': job['widths'], 'derive': str(job.get('derive'))[:300]})
+            continue
         if model is None:
             continue
-        if job['kind'] in ('simple', 'complex'):
-            compare_seq(ctx, col, job, res, model)
-        else:
-            compare_comb(ctx, col, job, res, model, variants)
+        try:
+            if job['kind'] in ('simple', 'complex'):
+                compare_seq(ctx, col, job, res, model)
+            else:
+                compare_comb(ctx, col, job, res, model, variants)
+        except Exception as e:  # noqa: a malformed model answer for one design must not hide the others
+            ctx.model_mismatch('comparison failed on one design: %s: %s' % (type(e).__name__, str(e)[:300]),
+                               {'kind': job['kind'], 'widths': job['widths']})
     float_premise(ctx)
     try:
         structural_kogge(ctx)
